@@ -279,6 +279,11 @@ func runJournal(t *sim.T, which string) *sim.Violation {
 	if t.Chance(1, 10) {
 		nFeeds = t.Range(20, 40)
 	}
+	long := t.Chance(1, 150)
+	if long {
+		nFeeds = t.Range(100, 300) // state that builds up over hundreds of feeds
+		t.Probe("long-history")
+	}
 	var published [][]byte
 	for i := 0; i < nFeeds; i++ {
 		published = append(published, gen.MarshalFeed(w.Tick()))
@@ -315,8 +320,32 @@ func runJournal(t *sim.T, which string) *sim.Violation {
 		}
 	}
 
+	// In long histories every prefix is checked too, but the feeds of a prefix are not re-parsed for each
+	// build (the journal does not modify the feeds it is given; short histories re-parse to make sure).
+	var reuse []*gtfs.Realtime
+	if long {
+		for _, raw := range delivered {
+			r, err, pv, _ := parseRT(append([]byte(nil), raw...), spec.Fresh())
+			if pv != nil || err != nil {
+				return nil
+			}
+			reuse = append(reuse, r)
+		}
+	}
 	build := func(k int, a, b time.Time) (*journal.Journal, *sim.Violation) {
 		src := &sliceSource{}
+		if long {
+			src.items = reuse[:k:k]
+			var j *journal.Journal
+			pv, stack := guard(func() { j = journal.BuildJournal(src, a, b) })
+			if pv != nil {
+				return nil, &sim.Violation{Class: "panic", Signature: which + ":panic:" + panicSig(pv, stack), Detail: fmt.Sprintf("BuildJournal panicked on a well-shaped history: %v", pv)}
+			}
+			if j == nil {
+				return nil, &sim.Violation{Class: "nil-journal", Signature: which + ":nil-journal", Detail: "BuildJournal returned nil"}
+			}
+			return j, nil
+		}
 		for _, raw := range delivered[:k] {
 			r, err, pv, _ := parseRT(append([]byte(nil), raw...), spec.Fresh())
 			if pv != nil || err != nil {
